@@ -52,6 +52,10 @@ pub enum Op {
     Base { family: String, #[serde(with = "hexser")] bytes: Vec<u8> },
     ZeroFault,
     TruncAll,
+    /// the data section of a bin-archive-based file loses its last k bytes (k = 1..=48) and the
+    /// header's size words are adjusted to match: a file re-packed around a torn payload. The
+    /// tables stay intact, so the damage is only met when the contents are decoded.
+    DataCutAll,
     /// boundary values planted in every (or sampled) 32-bit word, both byte orders
     PlantAll { sample_seed: u64 },
     FlipSample { seed: u64, n: u32 },
@@ -398,6 +402,59 @@ fn over_declares(reader: &str, b: &[u8]) -> Option<bool> {
             let need = 0x20 + rd(4)? + rd(8)? * 4 + rd(12)? * 8;
             Some(need > b.len() as u64)
         }
+        "arc" => {
+            // a little-endian bin archive whose labels "Count" and "Info" name the record count and
+            // the record table (name pointer, index, size, address); file bytes lie in the data section
+            if b.len() < 0x20 {
+                return None;
+            }
+            let data_size = le32(4)?;
+            let labels_at = 0x20 + data_size + le32(8)? * 4;
+            let text_at = labels_at + le32(12)? * 8;
+            if text_at > b.len() as u64 {
+                return Some(true);
+            }
+            let mut count_at: Vec<u64> = Vec::new();
+            let mut info_at: Vec<u64> = Vec::new();
+            for i in 0..le32(12)? {
+                let addr = le32((labels_at + 8 * i) as usize)?;
+                let off = le32((labels_at + 8 * i + 4) as usize)?;
+                let start = (text_at + off) as usize;
+                let name = b.get(start..)?;
+                let end = name.iter().position(|c| *c == 0)?;
+                match &name[..end] {
+                    b"Count" => count_at.push(addr),
+                    b"Info" => info_at.push(addr),
+                    _ => {}
+                }
+            }
+            count_at.sort();
+            count_at.dedup();
+            info_at.sort();
+            info_at.dedup();
+            if count_at.len() != 1 || info_at.len() != 1 {
+                return None; // no table, or which of several the reader picks is not defined
+            }
+            let (count_at, info_at) = (count_at[0], info_at[0]);
+            if data_size < 4 || count_at + 4 > data_size {
+                return None;
+            }
+            let count = le32(0x20 + count_at as usize)?;
+            let padding = if le32(0x20)? == 0 { 0x60 } else { 0 };
+            if info_at + count * 16 > data_size {
+                return Some(true);
+            }
+            for i in 0..count {
+                let e = (0x20 + info_at + 16 * i) as usize;
+                let size = le32(e + 8)?;
+                let address = le32(e + 12)? + padding;
+                // (an empty file declares no bytes, wherever it is said to lie)
+                if size > 0 && 0x20 + address + size > b.len() as u64 {
+                    return Some(true);
+                }
+            }
+            Some(false)
+        }
         _ => None,
     }
 }
@@ -536,6 +593,32 @@ fn exec(ctx: &mut RunCtx, w: &mut World, op: &Op) -> Step<()> {
             }
             ctx.fault("truncation");
             ctx.outcome("trunc_all", "ok", "");
+            Ok(())
+        }
+        Op::DataCutAll => {
+            let b = w.cur.clone();
+            if b.len() >= 0x20 && &b[0..4] != b"pack" {
+                for big in [false, true] {
+                    let rd = |o: usize| {
+                        let x = [b[o], b[o + 1], b[o + 2], b[o + 3]];
+                        if big { u32::from_be_bytes(x) } else { u32::from_le_bytes(x) }
+                    };
+                    let (total, ds) = (rd(0), rd(4) as usize);
+                    if ds == 0 || 0x20 + ds > b.len() {
+                        continue;
+                    }
+                    for k in 1..=ds.min(48) {
+                        let mut c = b[..0x20 + ds - k].to_vec();
+                        c.extend_from_slice(&b[0x20 + ds..]);
+                        let put = |c: &mut Vec<u8>, o: usize, v: u32| c[o..o + 4].copy_from_slice(&if big { v.to_be_bytes() } else { v.to_le_bytes() });
+                        put(&mut c, 0, total.wrapping_sub(k as u32));
+                        put(&mut c, 4, (ds - k) as u32);
+                        all_readers(ctx, w, &c, 8)?;
+                    }
+                    ctx.fault("data_section_cut");
+                }
+            }
+            ctx.outcome("data_cut_all", "ok", "");
             Ok(())
         }
         Op::PlantAll { sample_seed } => {
@@ -707,7 +790,27 @@ fn run(cfg: &Value, ctx: &mut RunCtx) -> Step<()> {
         }
     }
     let mut planned: Vec<Op> = Vec::new();
-    if !ctx.is_replay() {
+    if !ctx.is_replay() && ctx.run_seed % 64 == 7 {
+        // a large pack archive (more than 4096 entries, 16-bit counters and strides): read intact,
+        // with a few faults only (full enumeration of a 150 KiB file would take minutes)
+        let mut r = Rng::sub(ctx.run_seed, "ops");
+        let big = guarded(|| {
+            let mut m: IndexMap<String, Vec<u8>> = IndexMap::new();
+            let n = 4097 + r.below(40);
+            for i in 0..n {
+                m.insert(format!("f{}", i), if i % 97 == 0 { vec![i as u8; 3] } else { Vec::new() });
+            }
+            mila::fe9_arc::serialize(&m).unwrap_or_default()
+        })
+        .unwrap_or_default();
+        planned.push(Op::Base { family: "fe9arc".into(), bytes: big });
+        planned.push(Op::ZeroFault);
+        for _ in 0..4 {
+            planned.push(Op::Multi { seed: r.next() });
+        }
+        planned.reverse();
+        ctx.probe("pack_with_more_than_4096_entries");
+    } else if !ctx.is_replay() {
         let mut r = Rng::sub(ctx.run_seed, "ops");
         if r.chance(1, 6) {
             planned.push(Op::Garbage { seed: r.next(), len: r.range(0, 200) as u32 });
@@ -718,6 +821,7 @@ fn run(cfg: &Value, ctx: &mut RunCtx) -> Step<()> {
             planned.push(Op::Base { family, bytes });
             planned.push(Op::ZeroFault);
             planned.push(Op::TruncAll);
+            planned.push(Op::DataCutAll);
             planned.push(Op::PlantAll { sample_seed: r.next() });
             planned.push(Op::PlantPairsHeader);
             planned.push(Op::FlipSample { seed: r.next(), n: 256 });
